@@ -8,12 +8,13 @@ verus! {
 //@include prelude/fjall_types.rs
 //@include prelude/paths.rs
 //@guards .write_serialize_lock(
-//@world write_serialize_lock.lock oracle.write_serialize_lock snapshot_tracker.open drop
+//@world write_serialize_lock.lock oracle.write_serialize_lock snapshot_tracker.open drop oracle.with_commit
 
-pub struct World { pub oracle_locked: bool, pub opened: nat }
+pub struct World { pub oracle_locked: bool, pub opened: nat,
+    pub validations: Seq<(u64, int)> }   // (start instant, read/write-set identity) of every commit attempt handed to the oracle
 pub struct ConflictManagerT { pub dummy: u8 }
 pub struct BTreeMap<K, V> { pub ph: core::marker::PhantomData<(K, V)> }
-pub struct ConflictManager { pub dummy: u8 }
+pub struct ConflictManager { pub id: Ghost<int> }   // identity of one transaction's recorded reads and writes
 impl ConflictManager { #[verifier::external_body] pub fn default() -> (r: ConflictManager) { unimplemented!() } }
 pub struct PoisonError { pub dummy: u8 }
 pub struct MutexGuard<'a, T> { pub ph: core::marker::PhantomData<&'a T> }
@@ -60,8 +61,13 @@ impl<T> std::ops::Deref for Arc<T> { type Target = T; fn deref(&self) -> (r: &T)
 impl<T> Clone for Arc<T> { #[verifier::external_body] fn clone(&self) -> (r: Arc<T>) ensures r == *self { unimplemented!() } }
 #[derive(Clone, Copy, PartialEq, Eq)]
 pub enum PersistMode { Buffer, SyncData, SyncAll }
-pub struct BaseTransaction { pub nonce: SnapshotNonce, pub durability: Option<PersistMode> }
+pub struct TxMemtables { pub empty: bool }
+impl TxMemtables { pub fn is_empty(&self) -> (r: bool) ensures r == self.empty { self.empty } }
+pub struct BaseTransaction { pub nonce: SnapshotNonce, pub durability: Option<PersistMode>, pub memtables: TxMemtables }
 impl BaseTransaction {
+    // BaseTransaction::commit / rollback (U-TX); called from inside the oracle's closure, no ghost state of this unit involved
+    #[verifier::external_body] pub fn commit(self) -> (r: FjResult<()>) { unimplemented!() }
+    #[verifier::external_body] pub fn rollback(self) { unimplemented!() }
     #[verifier::external_body] pub fn new(db: Database, nonce: SnapshotNonce) -> (r: BaseTransaction) ensures r.nonce == nonce, r.durability is None { unimplemented!() }
     #[verifier::external_body] pub fn durability(self, mode: Option<PersistMode>) -> (r: BaseTransaction) ensures r.nonce == self.nonce, r.durability == mode { unimplemented!() }
 }
@@ -85,6 +91,33 @@ impl OptimisticTxDatabase { pub fn inner(&self) -> (r: &Database) ensures *r == 
         r is Ok ==> r->Ok_0.inner.nonce.under_oracle_lock@, // [C07:S5-snapshot-taken-inside-the-oracle-critical-section]
         r is Ok ==> r->Ok_0.oracle == self.oracle, // [C07:transaction-commits-through-this-database's-oracle]
         r is Ok ==> r->Ok_0.inner.durability == (if self.inner.config.manual_journal_persist { None } else { Some(PersistMode::Buffer) }),
+//@end
+
+// ---- committing an optimistic transaction (src/tx/optimistic/write_tx.rs WriteTransaction::commit)
+//@extract-type src/tx/optimistic/oracle.rs :: CommitOutcome
+pub struct Conflict;
+impl Oracle {
+    // contract of Oracle::with_commit (U-ORACLE: S3 validates `conflict_checker` against every commit after `instant`, S4 one
+    // critical section, S7 `f` runs only if nothing conflicts), restated over this unit's log of validations
+    #[verifier::external_body]
+    pub fn with_commit<E, F: FnOnce() -> Result<(), E>>(&self, instant: SeqNo, conflict_checker: ConflictManager, f: F, Tracked(w): Tracked<&mut World>) -> (r: FjResult<CommitOutcome<E>>)
+        requires !old(w).oracle_locked,
+        ensures *final(w) == (World { validations: old(w).validations.push((instant, conflict_checker.id@)), ..*old(w) }),
+    { unimplemented!() }
+}
+//@extract src/tx/optimistic/write_tx.rs :: WriteTransaction :: commit world props=C07
+//@contract
+    requires !old(w).oracle_locked,
+    ensures
+        // a transaction with writes reaches the database only through the oracle, validated as of ITS OWN start instant against ITS OWN
+        // recorded reads and writes (S3); a transaction without writes changes nothing and needs no validation (it read one snapshot)
+        !self.inner.memtables.empty ==> final(w).validations == old(w).validations.push((self.inner.nonce.instant, self.cm.id@)), // [C07:S3-commit-validated-at-its-own-start-instant-with-its-own-read-set]
+        self.inner.memtables.empty ==> final(w).validations == old(w).validations && r matches Ok(Ok(_)), // [C07:read-only-transaction-commits-without-effect]
+        !final(w).oracle_locked,
+//@end
+//@extract src/tx/optimistic/write_tx.rs :: WriteTransaction :: rollback props=C07+C08
+//@contract
+    ensures true,
 //@end
 
 //@canary
